@@ -89,23 +89,23 @@ def load_dump_file(ctx, clear, with_state):
     reg['Transport.dropNode'] = lambda I, s, a, k: ev.append(('dropNode', a[0]))
     I = make_interp(ctx, so, registry=reg, inline={'SyncObj.__updateClusterConfiguration'})
     k, v = run_method(I, so, LOAD, [], {'clearJournal': clear})
-    ctx.prove(k == 'ok', 'C09+C06:O9.4.no-exception-escapes', info=getattr(v, 'typ', None))
+    ctx.prove(k == 'ok', 'C09+C06+C01:O9.4.no-exception-escapes', info=getattr(v, 'typ', None))
     if k != 'ok':
         return
     if ctx.decide(fails, 'failed'):
-        ctx.prove(v is False, 'C09+C01:O9.4.failure-reported')
+        ctx.prove(v is False, 'C09+C01+C06:O9.4.failure-reported')
         for n, b in field_unchanged(old, so, ['raftLog', 'raftLastApplied', 'raftCommitIndex', 'otherNodes']):
-            ctx.prove(b, 'C09:O9.4.failed-load-changes-nothing.%s' % n)
+            ctx.prove(b, 'C09+C06+C01:O9.4.failed-load-changes-nothing.%s' % n)
         return
-    ctx.prove(v is True, 'C09+C01:O9.4.success-reported')
+    ctx.prove(v is True, 'C09+C01+C06:O9.4.success-reported')
     log = so.log()
     pidx = d['prev'][1]
     ctx.prove(so.get('raftLastApplied') == pidx + 1, 'C09+C01+C06:O9.4.applied-is-dump-position')
     # the journal holds the dump's two entries at its head
     ctx.prove(And(to_z3(log.n) >= 2, Eq(log.first, pidx), log.termf(z3.IntVal(0)) == d['prev'][2], log.termf(z3.IntVal(1)) == d['last'][2],
-                  log.cmdf(z3.IntVal(0)) == d['prev'][0].id, log.cmdf(z3.IntVal(1)) == d['last'][0].id), 'C09+C01:O9.4.journal-starts-with-dump-entries')
+                  log.cmdf(z3.IntVal(0)) == d['prev'][0].id, log.cmdf(z3.IntVal(1)) == d['last'][0].id), 'C09+C01+C06:O9.4.journal-starts-with-dump-entries')
     if clear:
-        ctx.prove(to_z3(log.n) == 2, 'C09+C01:O1.5.install-replaces-journal')
+        ctx.prove(to_z3(log.n) == 2, 'C09+C01+C06:O1.5.install-replaces-journal')
     else:
         # O6.3 (from the statement of C06): what the node had journaled beyond the dump position is still there
         w = FreshInt('w')
@@ -127,6 +127,12 @@ def load_dump_file(ctx, clear, with_state):
     for i in range(so.U):
         ctx.prove(Implies(And(dyn, v1[i], Not(v0[i])), And(nx.pres[i], mt.pres[i])), 'C10+C04:O9.4.I4.maps-for-restored-members')
     ctx.prove(so.get('raftCommitIndex') == old.get('raftCommitIndex'), 'C04:O9.4.commit-untouched')
+    # O2.4: a dump load settles no submission - a position covered by the snapshot may hold exactly the subscribed command (committed by a later
+    # leader), so neither SUCCESS nor DISCARDED may be reported from here, and term / vote / request ids are not part of a dump
+    mine = [a for f_, a in ctx.glist('cb') if getattr(f_, 'tag', '').startswith('user')]
+    ctx.prove(len(mine) == 0, 'C02:O2.4.dump-load-fires-no-submitter-callback', info=repr(mine[:2]))
+    for n, b in field_unchanged(old, so, ['commandsWaitingCommit', 'commandsWaitingReply', 'commandsLocalCounter', 'raftCurrentTerm', 'votedForNodeId', 'raftState']):
+        ctx.prove(b, 'C02+C03+C07:O9.4.dump-load-frame.%s' % n)
 
 
 def _mut_table_v0(fn):
@@ -345,17 +351,17 @@ def init_startup(ctx):
     ctx.setcell(so.selfref, PObj('SyncObj', blank))
     I = make_interp(ctx, so, externals={'createJournal': lambda I_, a, k: jref, 'journal.createJournal': lambda I_, a, k: jref})
     kind, v, fr = run_region(I, so, 'SyncObj.__init__', stmts)
-    ctx.prove(kind == 'ok', 'C06:O6.2.no-exception', info=getattr(v, 'typ', None))
+    ctx.prove(kind == 'ok', 'C06+C01:O6.2.no-exception', info=getattr(v, 'typ', None))
     if kind != 'ok':
         return
     log = so.log()
-    ctx.prove(so.get('raftLog').addr == jref.addr, 'C06:O6.2.log-is-the-journal')
+    ctx.prove(so.get('raftLog').addr == jref.addr, 'C06+C01:O6.2.log-is-the-journal')
     if ctx.decide(to_z3(disk.n) == 0, 'journal-empty'):
         ctx.prove(And(Eq(log.n, 1), Eq(log.first, 1), log.termf(z3.IntVal(0)) == 0, _ctype(log.cmdf(z3.IntVal(0))) == 1), 'C06+C01:O6.2.empty-journal-gets-the-initial-noop')
     else:
-        ctx.prove(log_same(disk, log), 'C06:O6.2.recovered-log-is-journal-content')
+        ctx.prove(log_same(disk, log), 'C06+C01:O6.2.recovered-log-is-journal-content')
     ctx.prove(Eq(so.get('raftCommitIndex'), stored_commit), 'C06+C04:O6.2.commit-is-stored-commit')
-    ctx.prove(Eq(so.get('raftLastApplied'), 1), 'C06:O6.2.applied-restarts-at-one')
+    ctx.prove(Eq(so.get('raftLastApplied'), 1), 'C06+C01:O6.2.applied-restarts-at-one')
     # C07: what the previous incarnation acknowledged (ghost): the largest term it adopted or put on the wire, and its vote in it
     ack_term, ack_vote = FreshInt('ackTerm'), FreshInt('ackVote')
     ctx.track('ackTerm', ack_term)
